@@ -123,4 +123,100 @@ def judgeState (live sc ib : List Nat) : Bool :=
   let all := sc ++ ib
   (dedup all).length == all.length && all.all (fun c => live.contains c) && live.all (fun c => all.contains c)
 
+
+/-! ### TypeMux: acceptor of observed histories of the real `event.TypeMux`
+
+  Sb c / Se c m     Subscribe of receiver c began / returned; m = bit mask of the event types it subscribed to
+  Pb p t / Pe p ok  Post of event p (type bit t) began / returned (ok = 1: nil, 0: ErrMuxClosed)
+  Ub c / Ue c       Unsubscribe of c began / returned
+  Tb / Te           Stop began / returned
+  Rv c p            receiver c received event p; the log position was reserved BEFORE the receive operation began (the
+                    channel is unbuffered, so the hand-off happened after that position)
+  hang              watchdog
+
+  Clauses (model theorems `mux_at_most_once`, `mux_exactly_once`, `mux_no_delivery_after_unsubscribe_returned`,
+  `mux_post_after_stop_fails`): duplicate; lost (Post returned nil, Se c before Pb p with the type bit set, no Ub c and no
+  Tb before Pe p ⇒ exactly one Rv c p); late (an Rv c _ whose receive began after Ue c, or of a Post that began after Ue c,
+  or — for a receiver that is never unsubscribed — whose receive began after Te); api (a Post that began after Te
+  returned nil). -/
+
+inductive MEv
+  | sb (c : Nat) | se (c m : Nat) | pb (p t : Nat) | pe (p ok : Nat) | ub (c : Nat) | ue (c : Nat) | tb | te
+  | rv (c p : Nat) | hang
+  deriving DecidableEq, Repr, Inhabited
+
+def mFirst (tr : Array MEv) (f : MEv → Bool) : Option Nat := tr.findIdx? f
+
+def mRecvd (tr : Array MEv) (c : Nat) : List Nat :=
+  tr.foldr (fun e acc => match e with | .rv c' p => if c' == c then p :: acc else acc | _ => acc) []
+
+def mSubs (tr : Array MEv) : List Nat :=
+  dedup (tr.foldr (fun e acc => match e with
+    | .sb c => c :: acc | .se c _ => c :: acc | .ub c => c :: acc | .ue c => c :: acc | .rv c _ => c :: acc | _ => acc) [])
+
+def mCountRv (tr : Array MEv) (c p : Nat) : Nat :=
+  tr.foldl (fun n e => match e with | .rv c' p' => if c' == c && p' == p then n + 1 else n | _ => n) 0
+
+/-- posts that returned nil: (p, type bit, position of Pb, position of Pe) -/
+def mPostsOk (tr : Array MEv) : List (Nat × Nat × Nat × Nat) :=
+  (List.range tr.size).filterMap (fun i =>
+    match tr[i]! with
+    | .pb p t =>
+      match mFirst tr (fun e => match e with | .pe p' _ => p' == p | _ => false) with
+      | some e => match tr[e]! with
+        | .pe _ 1 => some (p, t, i, e)
+        | _ => none
+      | none => none
+    | _ => none)
+
+def mCheckDup (tr : Array MEv) : Bool :=
+  (mSubs tr).all (fun c => let r := mRecvd tr c; (dedup r).length == r.length)
+
+def mCheckLost (tr : Array MEv) : Bool :=
+  let tb := mFirst tr (fun e => e == .tb)
+  (mPostsOk tr).all (fun (p, t, b, e) =>
+    (match tb with | some x => decide (x < e) | none => false) ||
+    (mSubs tr).all (fun c =>
+      match mFirst tr (fun x => match x with | .se c' _ => c' == c | _ => false) with
+      | none => true
+      | some q =>
+        match tr[q]! with
+        | .se _ m =>
+          if q < b && (m / t) % 2 == 1 then
+            match mFirst tr (fun x => x == .ub c) with
+            | some u => if u < e then true else mCountRv tr c p == 1
+            | none => mCountRv tr c p == 1
+          else true
+        | _ => true))
+
+def mCheckLate (tr : Array MEv) : Bool :=
+  let te := mFirst tr (fun e => e == .te)
+  (mSubs tr).all (fun c =>
+    let ue := mFirst tr (fun x => x == .ue c)
+    let hasUb := (mFirst tr (fun x => x == .ub c)).isSome
+    (List.range tr.size).all (fun i =>
+      match tr[i]! with
+      | .rv c' p =>
+        if c' == c then
+          let a := match ue with | some u => !(u < i) | none => true
+          let b := match ue, mFirst tr (fun x => match x with | .pb p' _ => p' == p | _ => false) with
+                   | some u, some pb => !(u < pb) | _, _ => true
+          let d := match te with | some t => hasUb || !(t < i) | none => true
+          a && b && d
+        else true
+      | _ => true))
+
+def mCheckApi (tr : Array MEv) : Bool :=
+  match mFirst tr (fun e => e == .te) with
+  | none => true
+  | some t => (mPostsOk tr).all (fun (_, _, b, _) => !(t < b))
+
+def judgeMux (tr : Array MEv) : Option String :=
+  if tr.contains .hang then some "deadlock"
+  else if !mCheckDup tr then some "duplicate"
+  else if !mCheckLost tr then some "lost"
+  else if !mCheckLate tr then some "late"
+  else if !mCheckApi tr then some "api"
+  else none
+
 end Aqv.FeedSpec
